@@ -14,7 +14,8 @@ import (
 // scripted renderers: emit a known numbered sequence from 1..P producers
 
 type script3 struct {
-	pre     func() // runs first thing in Render (fault injection)
+	closeAt map[int]bool // single producer: call Close() before writing batch i
+	pre     func()       // runs first thing in Render (fault injection)
 	jid     uint32
 	batches [][][]*sdf.Triangle3 // per producer
 }
@@ -29,6 +30,9 @@ func (r *script3) Render(s sdf.SDF3, out sdf.Triangle3Writer) {
 		if len(r.batches) == 1 {
 			for bi, b := range r.batches[0] {
 				simcore.Yield(simcore.Label{Site: SProd, Job: r.jid, A: 0, B: uint64(bi)})
+				if r.closeAt[bi] {
+					out.Close() // a renderer may flush in the middle of its output
+				}
 				out.Write(b)
 			}
 		}
@@ -52,6 +56,7 @@ func (r *script3) Render(s sdf.SDF3, out sdf.Triangle3Writer) {
 }
 
 type script2 struct {
+	closeAt map[int]bool
 	pre     func()
 	jid     uint32
 	batches [][][]*sdf.Line2
@@ -67,6 +72,9 @@ func (r *script2) Render(s sdf.SDF2, out sdf.Line2Writer) {
 		if len(r.batches) == 1 {
 			for bi, b := range r.batches[0] {
 				simcore.Yield(simcore.Label{Site: SProd, Job: r.jid, A: 0, B: uint64(bi)})
+				if r.closeAt[bi] {
+					out.Close()
+				}
 				out.Write(b)
 			}
 		}
